@@ -11,7 +11,7 @@ import json
 import warnings
 
 from harness import iocheck as io
-from harness.gen.pddlgen import IoGenProblem, key_through, forward_plans, add_temporal
+from harness.gen.pddlgen import IoGenProblem, key_through, forward_plans, add_temporal, corpus_pddl
 
 META = {
     "level": "translation_validation",
@@ -22,6 +22,28 @@ META = {
 
 DEPTH_Q, CAP_Q = 4, 25
 DEPTH_T, CAP_T = 5, 40
+
+
+_UNDEF = {}
+
+
+def undefined_fluents(problem):
+    """fluents with at least one ground instance that has no initial value"""
+    key = id(problem)
+    if key not in _UNDEF:
+        counts = {}
+        for fe in problem.initial_values:
+            counts[fe.fluent()] = counts.get(fe.fluent(), 0) + 1
+        out = set()
+        for f in problem.fluents:
+            n = 1
+            for pp in f.signature:
+                n *= len(list(problem.objects(pp.type))) if pp.type.is_user_type() else 1
+            if counts.get(f, 0) < n:
+                out.add(f)
+        _UNDEF.clear()
+        _UNDEF[key] = out
+    return _UNDEF[key]
 
 
 def features(problem):
@@ -50,6 +72,11 @@ def features(problem):
                 tags.add("increase-decrease")
             if e.fluent.type.is_bool_type() and not e.value.is_constant():
                 tags.add("bool-assignment")
+                if e.is_conditional() and any(fe.fluent() in undefined_fluents(problem)
+                                              for fe in problem.environment.free_vars_extractor.get(e.value)):
+                    # PDDLWriter rewrites `f := v when c` into `when (c and v) f` / `when (c and not v) (not f)`: v is
+                    # then evaluated even when c is false, which matters only if v reads a fluent without a value
+                    tags.add("undefined-fluent-in-rewritten-conditional-assignment")
     seen = set()
     while stack:
         x = stack.pop()
@@ -96,12 +123,18 @@ def run(ctx):
     cases, owners = [], []
     generated = 0
     attempts = 0
-    while generated < nprob and attempts < nprob * 6:
+    hands = corpus_pddl()                       # hand-written corner problems first (not counted in nprob)
+    stats["corner_corpus"] = [h.label for h in hands]
+    while (generated < nprob or hands) and attempts < nprob * 6:
         attempts += 1
-        ai_friendly = rng.random() < 0.45
-        temporal = not ai_friendly and rng.random() < 0.3
-        g = IoGenProblem(rng, ai_friendly=ai_friendly, plain_names=(ai_friendly and rng.random() < 0.5),
-                         bool_assign=rng.random() < 0.5, metrics=not temporal)
+        if hands:
+            g, ai_friendly, temporal = hands.pop(0), True, False
+            generated -= 1
+        else:
+            ai_friendly = rng.random() < 0.45
+            temporal = not ai_friendly and rng.random() < 0.3
+            g = IoGenProblem(rng, ai_friendly=ai_friendly, plain_names=(ai_friendly and rng.random() < 0.5),
+                             bool_assign=rng.random() < 0.5, metrics=not temporal)
         if not g.bad and temporal:
             add_temporal(g, rng, "pddl")
             if rng.random() < 0.5:
